@@ -342,6 +342,99 @@ def plan_function(c, res, fn, short):
                             short_site(bf, e['bb'], e['si']), "DOM(write => returned acks true)", instance='%s: %s only with ack[%d] true' % (short, what, i))
 
 
+def _is_call(t, suffix):
+    return isinstance(t, tuple) and len(t) >= 3 and t[0] == 'call' and t[1].endswith(suffix)
+
+
+def plan_values(c, res, fn_dl, fn_new):
+    """rule (b'): the channel-plan functions store exactly the commanded values. DlChannelReq: the slot `index` gets
+    its own channel back with dl_frequency = Some(freq), or None only when freq equals that channel's uplink
+    frequency (the two are equivalent for RX1); NewChannelReq: slot `index` becomes None only for freq == 0 (and the
+    mask bit is cleared), else Some(Channel::new_with_dr(freq, the commanded range)) with the mask bit set."""
+    bf = c.bf(fn_dl)
+    body = bf.body
+    self_, idx, freq = param_by_name(body, 'self'), param_by_name(body, 'index'), param_by_name(body, 'freq')
+    slot = ('index', ('field', ('deref', ('param', self_)), 'channels'), ('cast', 'usize', ('param', idx), 'u8'))
+    stores = []
+    for b in body.blocks:
+        if b.cleanup or b.idx not in bf.cfg.reach:
+            continue
+        for si, s in enumerate(b.stmts):
+            if s.k == 'assign' and s.lhs.proj:
+                root, path = bf.root_of_place(s.lhs)
+                stores.append((b.idx, si, root, path, s))
+    slot_st = [x for x in stores if x[2] == self_ and x[3][:1] == ['channels']]
+    ok = len(slot_st) == 1 and flow.term_of_place(bf, slot_st[0][4].lhs) == slot
+    why = 'the store into the channel table is not the single store to channels[index]'
+    if ok:
+        v = rv_term(bf, slot_st[0][4].rv)
+        ok = v[0] == 'agg' and v[1].endswith('Option::Some') and v[2][0][1][0] == 'phi'
+        why = 'the stored slot is not Some(the modified copy of the channel)'
+    if ok:
+        ch = v[2][0][1][1]
+        defs = rules.defs_with_conditions(bf, ch)
+        ok = len(defs) == 1 and defs[0][0] == ('field', ('as', slot, 'Some'), '0')
+        why = 'the channel written back is not a copy of channels[index]'
+    if ok:
+        fst = [x for x in stores if x[2] == ch]
+        ok = len(fst) == 1 and fst[0][3] == ['dl_frequency'] and fst[0][4].rv.k == 'use'
+        why = 'fields other than dl_frequency of the channel are modified'
+    if ok:
+        val = term_of_operand(bf, fst[0][4].rv.ops[0])
+        dl = rules.defs_with_conditions(bf, val[1]) if val[0] == 'phi' else [(val, path_conditions(bf, fst[0][0]), fst[0][0])]
+        same = ('Eq', ('param', freq), ('field', ('phi', ch), 'frequency'))
+        same2 = ('Eq', same[2], same[1])
+        for dv, cs, bb in dl:
+            if dv == ('agg', 'core::option::Option::Some', (('0', ('param', freq)),)):
+                continue
+            if dv == ('agg', 'core::option::Option::None', ()) and any(x[0] in (same, same2) and cond_true(x) for x in cs):
+                continue
+            ok = False
+            why = 'dl_frequency := %s under %s' % (term_str(dv), [term_str(x[0]) for x in cs][-1:])
+    res.require(ok, 'C08:DynamicChannelPlan::channel_dl_update:commanded-value', 'DlChannelReq does not take effect exactly as commanded: ' + why, body.path,
+                'PROVENANCE(dl_frequency)', instance='channel_dl_update: channels[index].dl_frequency = Some(freq), or None only when freq is the uplink frequency of that channel; nothing else changes')
+    # ---- NewChannelReq
+    bf = c.bf(fn_new)
+    body = bf.body
+    self_, idx, freq, dr = (param_by_name(body, n) for n in ('self', 'index', 'freq', 'dr'))
+    slot = ('index', ('field', ('deref', ('param', self_)), 'channels'), ('cast', 'usize', ('param', idx), 'u8'))
+    n_none = n_some = 0
+    ok, why = True, ''
+    for b in body.blocks:
+        if b.cleanup or b.idx not in bf.cfg.reach:
+            continue
+        for si, s in enumerate(b.stmts):
+            if not (s.k == 'assign' and s.lhs.proj):
+                continue
+            root, path = bf.root_of_place(s.lhs)
+            if root != self_:
+                continue
+            v = rv_term(bf, s.rv)
+            cs = path_conditions(bf, b.idx)
+            if path[:1] != ['channels'] or flow.term_of_place(bf, s.lhs) != slot:
+                ok, why = False, 'store to %s' % term_str(flow.term_of_place(bf, s.lhs))
+            elif v == ('agg', 'core::option::Option::None', ()):
+                n_none += 1
+                if not any(x[0] == ('Eq', ('param', freq), ('const', 0)) and cond_true(x) for x in cs):
+                    ok, why = False, 'channel removed without freq == 0'
+            elif v[0] == 'agg' and v[1].endswith('Option::Some') and _is_call(v[2][0][1], 'Channel::new_with_dr') and \
+                    tuple(v[2][0][1][2]) == (('param', freq), ('field', ('as', ('param', dr), 'Some'), '0')):
+                n_some += 1
+            else:
+                ok, why = False, 'channels[index] := %s' % term_str(v)
+        t = b.term
+        if t.k == 'call' and callee_name(t).endswith('ChannelMask::set_channel'):
+            a = [term_of_operand(bf, x) for x in t.args]
+            on = a[2]
+            cs = path_conditions(bf, b.idx)
+            removed = any(x[0] == ('Eq', ('param', freq), ('const', 0)) and cond_true(x) for x in cs)
+            if a[1] != ('cast', 'usize', ('param', idx), 'u8') or on != ('const', 0 if removed else 1):
+                ok, why = False, 'set_channel(%s, %s) %s' % (term_str(a[1]), term_str(on), 'on the removal path' if removed else 'on the creation path')
+    ok = ok and n_none == 1 and n_some == 1
+    res.require(ok, 'C08:DynamicChannelPlan::handle_new_channel:commanded-value', 'NewChannelReq does not take effect exactly as commanded: %s (removals %d, creations %d)' % (why, n_none, n_some), body.path,
+                'PROVENANCE(channel slot, mask bit)', instance='handle_new_channel: channels[index] = None (mask bit off) only for freq 0, else Channel::new_with_dr(freq, commanded range) (mask bit on)')
+
+
 def add_mac_command(c, res):
     bf = c.bf('lorawan_device::mac::uplink::Uplink::add_mac_command')
     body = bf.body
@@ -442,11 +535,14 @@ def run(tier):
     handle_downlink_macs(c, res)
     D = 'lorawan_device::region::dynamic_channel_plans::DynamicChannelPlan::'
     # trait impl bodies: resolved path is `<DynamicChannelPlan<R> as RegionHandler>::name`
+    fns = {}
     for name in ('channel_dl_update', 'handle_new_channel'):
         cands = [p for p in c.prog.by_short if p.endswith('RegionHandler>::' + name) and 'DynamicChannelPlan' in p]
         if len(cands) != 1:
             raise CheckError('missing anchor: DynamicChannelPlan::%s (%d candidates)' % (name, len(cands)))
         plan_function(c, res, cands[0], 'DynamicChannelPlan::' + name)
+        fns[name] = cands[0]
+    plan_values(c, res, fns['channel_dl_update'], fns['handle_new_channel'])
     add_mac_command(c, res)
     sticky(c, res)
     res.coverage['configs'] = [c.info]
